@@ -612,13 +612,155 @@ def check_plot_diagrams_given_range(project: Project, rep):
 
 # ----------------------------------------------------------------------------- 2-D landscape plots (pattern)
 
+def _elements(v):
+    """the entries of a 1-d value of known length as expressions, or None"""
+    from ..core.values import Arr, Sc, Seq
+    if isinstance(v, Seq):
+        return [x.e for x in v.items] if all(isinstance(x, Sc) and x.e is not None for x in v.items) else None
+    if isinstance(v, Arr) and v.ndim == 1 and v.axes[0][0].concrete is not None:
+        sp, iv = v.axes[0]
+        return [sym.subst_ivar(v.elem, iv, k) for k in range(sp.concrete)]
+    return None
+
+
+LAND_SEMANTIC = {}
+
+
+def check_landscape_plots_semantic(project: Project, rep):
+    """PL-LAND, decided by evaluating the two plotting functions on a small landscape object whose data are independent symbols
+    (3 depths × 3 points; `compute_landscape` is stubbed out: the data are given) with a recording axes object, once for
+    depth_range=[0, 2] and once for the default: exactly one line per requested depth, in depth order, whose abscissae and
+    ordinates are that depth's own data (exact: the two columns of its critical points; grid: np.linspace(start, stop, n) and its
+    sampled values) and whose label names that depth.  Returns ok / refuted / unmodelled per function."""
+    import random
+    from ..core.values import Arr, NoneV, ObjV, Sc, Seq, StrV
+    EXQ, APQ = "persim.landscapes.exact.PersLandscapeExact", "persim.landscapes.approximate.PersLandscapeApprox"
+    out = {}
+    for name, kind, cls in (("plot_landscape_exact_simple", "exact", EXQ), ("plot_landscape_approx_simple", "approx", APQ)):
+        q = f"persim.landscapes.visuals.{name}"
+        fi = project.functions.get(q)
+        if fi is None:
+            continue
+        status = "ok"
+        for requested in ([0, 2], None):
+            def stub(I_, bound, n_):
+                return NoneV()
+            I = Interp(project, Config(flags={"stub_func": {EXQ + ".compute_landscape": stub, APQ + ".compute_landscape": stub}}))
+            if kind == "exact":
+                data = [[(sym.Sym(f"x{d}{i}"), sym.Sym(f"y{d}{i}")) for i in range(3)] for d in range(3)]
+                land = ObjV(cls, {"critical_pairs": Seq([Seq([Seq([Sc(a), Sc(b)], "list") for a, b in dd], "list") for dd in data], "list"),
+                                  "max_depth": Sc(sym.Num(2)), "hom_deg": Sc(sym.ZERO)})
+            else:
+                data = [[sym.Sym(f"v{d}{i}") for i in range(4)] for d in range(3)]
+                land = ObjV(cls, {"values": Seq([Seq([Sc(a) for a in dd], "list") for dd in data], "list"),
+                                  "max_depth": Sc(sym.Num(2)), "hom_deg": Sc(sym.ZERO), "start": Sc(sym.Sym("start")),
+                                  "stop": Sc(sym.Sym("stop")), "num_steps": Sc(sym.Num(4))})
+            ax = ObjV(None, {}, tag="axes")
+            args = {"landscape": land, "ax": ax}
+            if requested is not None:
+                args["depth_range"] = Seq([Sc(sym.Num(k)) for k in requested], "list")
+            tag = f"{name}(depth_range={requested if requested is not None else 'default'})"
+            try:
+                I.run(q, args)
+            except AnalysisError as ex:
+                rep.unmodelled("PL-LAND", fi, fi.node, f"{tag}: could not be evaluated ({ex})"[:200])
+                status = "unmodelled"
+                break
+            plots = [ev for ev in I.log if ev["kind"] in ("draw", "pyplot") and (ev.get("method") == "plot" or ev.get("function") == "plot")]
+            um = [u for u in I.unmodelled if not str(u["tag"]).startswith("prim:builtins.print")]
+            want = requested if requested is not None else [0, 1, 2]
+            if um or I.lossy:
+                rep.unmodelled("PL-LAND", fi, fi.node, f"{tag}: the run was not exact ({(um[0]['tag'] if um else I.lossy[0]['why'])})"[:200])
+                status = "unmodelled"
+                break
+            if any(ev["kind"] == "pyplot" for ev in plots):
+                rep.unmodelled("PL-LAND", fi, plots[0]["node"], f"{tag}: lines are drawn through pyplot (PL-RECV decides the receiver)")
+                status = "unmodelled"
+                break
+            if len(plots) != len(want):
+                rep.refuted("PL-LAND", fi, plots[0]["node"] if plots else fi.node,
+                            f"{tag}: {len(plots)} line(s) drawn for {len(want)} requested depth(s) {want}",
+                            construct=f"{q}: one line per requested depth")
+                status = "refuted"
+                break
+            rng = random.Random(12)
+            bad = None
+            for ev, d in zip(plots, want):
+                pos = ev.get("pos") or []
+                if len(pos) < 2:
+                    bad = ("?", f"the line of depth {d} is drawn from {len(pos)} positional argument(s)")
+                    break
+                xs, ys = _elements(pos[0]), _elements(pos[1])
+                if xs is None or ys is None:
+                    bad = ("?", f"the data of the line of depth {d} could not be read ({pos[0]!r}, {pos[1]!r})"[:200])
+                    break
+                if kind == "exact":
+                    wx, wy = [a for a, _ in data[d]], [b for _, b in data[d]]
+                else:
+                    n_ = len(data[d])
+                    wx = [sym.add(sym.Sym("start"), sym.scale(sym.sub(sym.Sym("stop"), sym.Sym("start")), k / (n_ - 1))) for k in range(n_)]
+                    wy = list(data[d])
+                if len(xs) != len(wx) or len(ys) != len(wy):
+                    bad = ("no", f"the line of depth {d} has {len(xs)}×{len(ys)} points, its data {len(wx)}")
+                    break
+                pt = symeval.Point(rng)
+                try:
+                    got = [symeval.ev(e, pt) for e in xs + ys]
+                    exp = [symeval.ev(e, pt) for e in wx + wy]
+                except symeval.NotEvaluable as ex:
+                    bad = ("?", f"the line of depth {d} could not be evaluated ({ex})")
+                    break
+                if any(abs(a - b) > 1e-9 for a, b in zip(got, exp)):
+                    which = "abscissae" if any(abs(a - b) > 1e-9 for a, b in zip(got[:len(xs)], exp[:len(xs)])) else "ordinates"
+                    src = None
+                    for d2 in range(3):
+                        alt = ([b for _, b in data[d2]] if kind == "exact" else list(data[d2]))
+                        try:
+                            if len(alt) == len(ys) and all(abs(symeval.ev(a, pt) - g_) < 1e-9 for a, g_ in zip(alt, got[len(xs):])):
+                                src = d2
+                        except symeval.NotEvaluable:
+                            pass
+                    bad = ("no", f"the {k_th(want.index(d))} line (requested depth {d}) does not show that depth's data: its {which} differ"
+                                 + (f" — the ordinates are those of depth {src}" if src is not None and src != d else ""))
+                    break
+                lab = (ev.get("kwargs") or {}).get("label")
+                vals = [pv for pk, pv in getattr(lab, "parts", []) if pk == "val"] if isinstance(lab, StrV) else None
+                if isinstance(lab, StrV) and getattr(lab, "arg", None) is not None:
+                    vals = [lab.arg]
+                if vals and all(v is not None for v in vals):
+                    if not any(v[0] == "num" and int(v[1]) == d for v in vals if v[0] == "num") and all(v[0] == "num" for v in vals):
+                        bad = ("no", f"the line that shows depth {d} is labelled with {[int(v[1]) for v in vals]}")
+                        break
+            if bad is not None and bad[0] == "?":
+                rep.unmodelled("PL-LAND", fi, plots[0]["node"], f"{tag}: {bad[1]}"[:220])
+                status = "unmodelled"
+                break
+            if bad is not None:
+                rep.refuted("PL-LAND", fi, plots[0]["node"], f"{tag}: {bad[1]}", construct=f"{q}: data of the per-depth lines")
+                status = "refuted"
+                break
+            rep.discharged("PL-LAND", fi, plots[0]["node"],
+                           f"{tag}: evaluated on a 3-depth landscape of symbols — one line per requested depth, in order, drawn from "
+                           f"that depth's own data and labelled with its depth")
+        out[name] = status
+    LAND_SEMANTIC.update(out)
+    return out
+
+
+def k_th(i):
+    return ["first", "second", "third", "fourth"][i] if i < 4 else f"{i + 1}-th"
+
+
 def check_landscape_plots(project: Project, rep):
     m = project.module("persim.landscapes.visuals")
+    sem = check_landscape_plots_semantic(project, rep)
     for name, kind in (("plot_landscape_exact_simple", "exact"), ("plot_landscape_approx_simple", "approx")):
         fi = m.functions.get(name)
         if fi is None:
             raise AnalysisError(f"PL-LAND: {name} not found")
         rep.analysed(fi)
+        if sem.get(name) in ("ok", "refuted"):
+            continue   # decided by evaluation; the site reader below only speaks when the evaluation could not follow the code
         from .common import expand_locals, fn_view
         f = fn_view(project, fi)
         loops = [n for n in ast.walk(f) if isinstance(n, ast.For) and isinstance(n.iter, ast.Call)
